@@ -393,6 +393,16 @@ func VerifC13_cellcopies() {
 		vfAssert(t.RegisterPropertyCallback(c1, CB_AT_RENDER, CB_ON_CELL, cb1) == nil, "register-ok")
 	}
 	_ = when
+	// updating a cell (the documented duty after its item changed) keeps its callbacks
+	switch vfChoice("update", 3) {
+	case 1:
+		c1.Update()
+		vfTag("cell-updated-before-render")
+	case 2:
+		c1.Update()
+		c2.Update()
+		vfTag("cell-updated-before-render")
+	}
 	t.InvokeRenderCallbacks()
 	// expected: on cell (1,2): the pre callbacks then cb1; on cell (2,2): the pre callbacks then cb2
 	var want []vfEv
@@ -543,5 +553,60 @@ func VerifC13_many() {
 			vfAssert(body[i].id == want[i].id, "many-documented-order")
 			vfAssert(body[i].po == want[i].po, "many-live-object")
 		}
+	}
+}
+
+// VerifC13_sharedrow: a row object that sits in two tables (or twice in one) is a target in every
+// render pass of every table holding it: its own callbacks and its cells' fire once per listing per pass,
+// whatever the order and number of passes of the tables.
+func VerifC13_sharedrow() {
+	var log []vfEv
+	t1, t2 := New(), New()
+	r := NewRow()
+	r.Add(NewCell("s1")).Add(NewCell("s2"))
+	listings1, listings2 := 1, 1
+	switch vfChoice("layout", 3) {
+	case 0:
+		t1.AddRow(r)
+		t2.AddRowItems("x")
+		t2.AddRow(r)
+	case 1:
+		t1.AddRowItems("x")
+		t1.AddRow(r)
+		t2.AddRow(r)
+	case 2: // also listed twice in the first table
+		t1.AddRow(r)
+		t1.AddRowItems("x")
+		t1.AddRow(r)
+		t2.AddRow(r)
+		listings1 = 2
+	}
+	rowCB := &vfRecCB{id: 1, log: &log, key: &vfKeyT13{1}}
+	cellCB := &vfRecCB{id: 2, log: &log, key: &vfKeyT13{2}}
+	vfAssert(t1.RegisterPropertyCallback(r, CB_AT_RENDER_POSTCELL, CB_ON_ITSELF, rowCB) == nil, "register-ok")
+	vfAssert(t1.RegisterPropertyCallback(r, CB_AT_RENDER_PRECELL, CB_ON_CELL, cellCB) == nil, "register-ok")
+	passes := 2 + vfChoice("passes", 2)
+	wantRow, wantCell := 0, 0
+	for p := 0; p < passes; p++ {
+		if vfChoice(vfName("which", p), 2) == 0 {
+			t1.InvokeRenderCallbacks()
+			wantRow += listings1
+			wantCell += 2 * listings1
+		} else {
+			t2.InvokeRenderCallbacks()
+			wantRow += listings2
+			wantCell += 2 * listings2
+		}
+		nRow, nCell := 0, 0
+		for _, e := range log {
+			if e.id == 1 {
+				nRow++
+				vfAssert(e.po == PropertyOwner(r), "shared-row-live-object-handed-over")
+			} else {
+				nCell++
+			}
+		}
+		vfAssert(nRow == wantRow, "shared-row-callback-once-per-listing-per-pass")
+		vfAssert(nCell == wantCell, "shared-row-cell-callbacks-once-per-cell-per-pass")
 	}
 }
